@@ -18,7 +18,8 @@ if [ "$(cat "$L/verif.commit" 2>/dev/null)" != "$commit" ]; then
   echo "$commit" > "$L/verif.commit"
 fi
 mkdir -p "$L/verif/evidence" "$L/verif/replays"
-git -C "$L/repo" apply "$patch" || { echo "$(basename "$patch") ALL exit=2 cannot apply"; exit 2; }
+# (later hook commits shift the context of older patches by two lines: fall back to patch(1) with fuzz)
+git -C "$L/repo" apply "$patch" 2>/dev/null || (cd "$L/repo" && patch -p1 -s -F 3 --no-backup-if-mismatch < "$patch" >/dev/null 2>&1) || { for id in "$@"; do echo "$(basename "$patch") $id exit=2 HARNESS-ERROR: patch does not apply"; done; git -C "$L/repo" checkout -- .; exit 2; }
 cd "$L/verif" || exit 2
 if ! cargo build --release -p harness -p ldpc-toolbox --offline -q 2>"$L/build.log"; then
   for id in "$@"; do echo "$(basename "$patch") $id exit=2 HARNESS-ERROR: build failed: $(grep -m1 '^error' "$L/build.log" | cut -c1-200)"; done
